@@ -1,1 +1,37 @@
-"""Engine E1 'vcgen': ast -> verification conditions for the pure-integer functions of kaira (see DESIGN.md 3.2)."""
+"""Engine E1 'vcgen': ast -> verification conditions for the pure-integer functions of kaira (DESIGN.md 3.2).
+
+Modules
+  source.py         reads the function under contract from the working tree (KAIRA_REPO, default /repo) on every run:
+                    importlib -> real function object -> inspect.getsource -> ast.  No copy of kaira code lives here.
+  contract.py       sidecar contract objects (requires / ensures / raises / post ghosts + witnesses / loop invariants,
+                    variants, ghost updates, role bindings / lemma hints / per-configuration axiom instances / memo tables)
+  theory.py         GF2POLY + GF2QUOT: uninterpreted symbols, axioms written once as polymorphic lambdas (z3 | int | numpy),
+                    exhaustive instance tests against vk.ground, consistency probe
+  vcgen.py          the symbolic executor (mode "vc") and, with the same expression/statement semantics, the concrete
+                    interpreter (mode "concrete") used for the differential check and for invariant monitoring
+  check.py          verify_function(): VC generation, discharge (out-of-process z3 with a hard deadline, cvc5 second opinion),
+                    verdict rules, concrete search on the real function, cover and differential guards
+  solver_server.py  the z3 worker process
+  selftest.py       seeded mutations on a scratch copy outside /repo and /verif
+
+Supported subset (anything else => verdict "undecided", detail "outside E1: ..."):
+  statements   assignment (name, tuple, self.attr inside __init__, memo-table stores are dropped), augmented assignment,
+               if/elif/else, while (cut by a sidecar invariant + variant; without one: followed if the guard is concrete,
+               unrolled W+1 times with an unwinding assertion in BV mode), for-in-range (desugared to while) and for over a
+               list of concrete length, return, raise <Exception>("literal"), break, continue, pass, assert
+  expressions  int/bool constants, names, + - * // % ** (literal exponent) << >> & | ^, unary - / not, comparisons, and/or
+               (all operands evaluated; they are pure), conditional expressions, attribute reads on records, list literals,
+               indexing a concrete-length list, isinstance/hasattr (decided from the declared types), len, hash(int),
+               int.bit_length(), record construction (the real __init__ is inlined), x.__class__(...), calls/operators/
+               properties on records that have a contract (replaced by the contract)
+Encodings     Python ints are z3 Int.  x & 1 -> x mod 2;  x >> c, x << c (literal c) -> div / mul by 2^c;  x % c (literal
+               c > 2) -> ite(0 <= x < c, x, x mod c);  // and % by a symbolic divisor carry the obligation divisor > 0 (z3 div/mod
+               are floor division there);  x.bit_length() -> deg(x) + 1 with the obligation x >= 0;  x ^ y -> xor(x, y);
+               x | y -> bor(x, y);  x << e (symbolic) -> shl(x, e) with the obligation e >= 0;  x >> e (symbolic), x & y
+               (y not the literal 1), x ** e (symbolic e) are outside E1.
+               BV mode (contract.mode == "bv64"): ints are 64-bit vectors (precondition 0 <= n < 2^64), comparisons are
+               unsigned, >> is a logical shift, << + - * carry no-overflow obligations.
+Dropped       docstrings; type annotations; decorators (recorded; @property transparent); isinstance/hasattr guards become
+               preconditions (their TypeError / NotImplemented branches are dead under the declared types); exception message
+               contents (literal and f-string); stores into memo tables (cache invariant assumed).
+"""
